@@ -20,6 +20,7 @@ import (
 
 	"github.com/gotd/td/telegram/updates"
 
+	"verif/harness/c02/mgr"
 	"verif/harness/hc"
 )
 
@@ -690,8 +691,23 @@ func run(c *hc.Ctx) error {
 			c.Res.TracesValidated++
 		}
 	}
+	// 4. the same property observed at UpdateHandler.Handle of the public updates.Manager (fake API,
+	// storage and handler; see harness/c02/mgr): every positioned update is dispatched at most once,
+	// and never before everything that ends at or before its start. Monitor only; the model
+	// comparison of manager traces belongs to the C02/C03 checks.
+	mr := &mgr.Runner{C: c, Opt: mgr.Options{Prop: "C01", FailC01: true, MonitorOnly: true}}
+	for _, sc := range mgr.Fixed() {
+		mr.Evaluate(sc, nil)
+	}
+	for i, n := 0, c.N(400, 8000); i < n; i++ {
+		sc, plain := mgr.Gen(r, mgr.GenOptions{Channels: hc.Pick(r, 0, 1, 2), TooLong: r.Chance(20), MaxEntries: hc.Pick(r, 4, 8, 12)})
+		c.Count("manager.scenarios")
+		mr.Evaluate(sc, plain)
+	}
+
 	c.Res.Exhaustive = true
 	c.Res.Rule = fmt.Sprintf("histories = delivery of a contiguous server log with loss, duplication, late arrival, overlapping multi-count updates, State=0, negative counts, fetched differences (clearGaps+setState), direct applyPending, failing apply callbacks, 8%% from arbitrary (gaps,pending) start states; plus every history of length ≤ %d over the alphabet {handle(s,c): s∈1..4,c∈1..2, clearGaps, setState 3} (exhaustive part); non-trivial = the history opened at least one gap; distinct = distinct op list", maxLen)
+	c.PartialNote("at the level of updates.Manager (routing of containers into the boxes, goroutines of the main loop and the channel workers) C01 is monitored on sampled scenarios, not proved; the proofs are about each sequence box and their independence")
 	c.PartialNote("the real time.Timer is not modelled: only the armed/stopped flag is compared (skipped for a history that took ≥300 ms); the timer firing is an input of the manager model (C02), not of the box")
 	c.PartialNote("apply callbacks returning an error are modelled (ok flag) but applyPts/applyQts/channel applyPts never return one (regenerated fact); applySeq can (a failed getDifference), which the at-most-once theorem excludes by hypothesis")
 	return nil
